@@ -92,5 +92,5 @@ def run(repo, tier):
     rep.floor('label-target parse paths', 2)
     rep.floor('pc-relative pseudo expansions', 12)
     rep.floor('%lo constructions examined', 5)
-    rep.floor('item-immediate evaluation sites', 5)
+    rep.floor('item-immediate evaluation sites', 2)
     return rep
